@@ -44,6 +44,13 @@ def correspondence(ctx):
             tcorr.compare(ctx, j, 'C19', observables=('out', 'ld'), atol=64 * U32, rtol=64 * U32)
         else:
             tcorr.compare(ctx, j, 'C19', observables=('out', 'ld'))
+    # classes the transform-level model does not cover (linear family incl. large feature counts, normalisation layers,
+    # permutations, wrappers, UMNN): the numeric clause is checked directly, float32 vs the float64 twin
+    before = len(ctx.failing)
+    direct(ctx, oracles.extra_entries(), count=True)
+    for f in ctx.failing[before:]:
+        if not ctx.is_known(f['match']):
+            ctx.disagree('C19/direct-f32-vs-f64', f['case'], f['what'], 'float32 within single-precision accuracy of the float64 twin', f['what'])
     for (e, regime, inverse, j32, j64) in pairs:
         case = {'entry': e.name, 'regime': regime, 'inverse': inverse}
         ctx.case(key=('f32vs64', e.name, regime, inverse), branch='f32-vs-f64', nontrivial=True, n=int(j32.x.numel()))
@@ -59,10 +66,14 @@ def correspondence(ctx):
 
 def search(ctx):
     """the property directly: float32 implementation vs its float64 twin"""
+    direct(ctx, oracles.all_entries('quick'))
+
+
+def direct(ctx, entries, count=False):
     gen = torch.Generator().manual_seed(ctx.seed + 1919)
-    for e in oracles.all_entries('quick'):
+    for e in entries:
         try:
-            for regime in ('fresh', 'normal'):
+            for regime in (('fresh',) if e.extra.get('big') else ('fresh', 'normal')):
                 t32 = tcorr.build(e, gen, torch.float32, regime)
                 t64 = copy.deepcopy(t32).double()
                 for inverse in (False, True):
@@ -74,23 +85,26 @@ def search(ctx):
                     k64, y64, l64 = R.impl_call(t64, x32.double(), c32.double() if c32 is not None else None, inverse)
                     cls = e.name.split('/')[0]
                     case = {'entry': e.name, 'regime': regime, 'inverse': inverse, 'x': x32.reshape(-1).tolist()[:12]}
+                    M = lambda sym: {'class': cls, 'symptom': sym, 'family': e.spline.get('fam'), 'inverse': inverse, 'dtype': 'float32'}
+                    if count:
+                        ctx.case(key=('direct', e.name, regime, inverse), branch='direct-f32-vs-f64', nontrivial=True, n=int(x32.numel()))
                     if k64 == 'InputOutsideDomain' or k32 == 'InputOutsideDomain':
                         continue   # rounding of the inputs moved them across a domain boundary
                     if k32 != 'ok' or k64 != 'ok':
-                        ctx.fail('raises in %s' % ('float32' if k32 != 'ok' else 'float64 twin'), dict(case, kinds=[k32, k64]), match={'class': cls, 'symptom': 'raises'}); continue
+                        ctx.fail('raises in %s' % ('float32' if k32 != 'ok' else 'float64 twin'), dict(case, kinds=[k32, k64]), match=M('raises')); continue
                     if y32.dtype != torch.float32 or l32.dtype != torch.float32 or y64.dtype != torch.float64 or l64.dtype != torch.float64:
                         ctx.fail('result dtype differs from input dtype', dict(case, dtypes=[str(y32.dtype), str(l32.dtype), str(y64.dtype), str(l64.dtype)]),
-                                 match={'class': cls, 'symptom': 'dtype'}); continue
+                                 match=M('dtype')); continue
                     if not (torch.isfinite(y32).all() and torch.isfinite(l32).all()):
-                        ctx.fail('non-finite float32 result', case, match={'class': cls, 'symptom': 'non-finite'}); continue
+                        ctx.fail('non-finite float32 result', case, match=M('non-finite')); continue
                     kap = torch.exp(l64.abs().clamp(max=20))
                     cub = 0.25 if e.spline.get('fam') == 'cubic' else 0.0   # Hermite coefficients (d0+d1-2s)/w^2 cancel badly in float32
                     tol_l = 256 * U32 * (1 + l64.abs()) * kap * max(1, x32[0].numel()) + cub
                     if ((l32.double() - l64).abs() > tol_l + oracles._declared(e)).any():
-                        ctx.fail('float32 log-abs-det off by %.3g' % (l32.double() - l64).abs().max().item(), case, match={'class': cls, 'symptom': 'ld-accuracy'}); continue
+                        ctx.fail('float32 log-abs-det off by %.3g' % (l32.double() - l64).abs().max().item(), case, match=M('ld-accuracy')); continue
                     kk = kap.reshape(-1, *([1] * (y64.dim() - 1)))
                     if ((y32.double() - y64).abs() > 256 * U32 * (1 + y64.abs()) * kk + oracles._declared(e) + cub / 10).any():
-                        ctx.fail('float32 output off by %.3g' % (y32.double() - y64).abs().max().item(), case, match={'class': cls, 'symptom': 'accuracy'})
+                        ctx.fail('float32 output off by %.3g' % (y32.double() - y64).abs().max().item(), case, match=M('accuracy'))
         except Exception as ex:
             ctx.notes.append('C19 oracle on %s raised %r' % (e.name, ex))
         if len(ctx.failing) >= 6 or ctx.elapsed() > 900:
